@@ -46,9 +46,11 @@ pub uninterp spec fn status_text(s: http::StatusCode) -> Seq<char>;   // StatusC
 pub open spec fn fail_ev_of(s: crate::proxy::proxy_summary::ProxySummary) -> FailEv {
     FailEv { user: s.userName@, cmd: s.processCmdLine@, exe: s.processFullPath, dest_ip: s.ip@, dest_port: s.port, client_ip: s.clientIp@, status: s.responseStatus@ }
 }
-pub tracked struct HTrace { pub ghost failed: Seq<FailEv> }
+// failed: events handed to the status actor's failed-authorization summary; decisions: results of the authorization decision
+pub tracked struct HTrace { pub ghost failed: Seq<FailEv>, pub ghost decisions: Seq<AuthorizeResult> }
 
 // the event a denial of a request on `tcp` must add: the caller's user, process, command line and the destination
+pub uninterp spec fn status_const(code: u16) -> http::StatusCode;      // the StatusCode constant with this code
 pub open spec fn denial_event(tcp: TcpConnectionContext, status: http::StatusCode) -> FailEv {
     let c = tcp.claims->0;
     FailEv { user: c.userName@, cmd: c.processCmdLine@, exe: c.processFullPath, dest_ip: ip_string(tcp.destination_ip->0),
@@ -122,6 +124,7 @@ pub open spec fn is_provision_query(u: http::Uri) -> bool { uri_is_str(u, "/prov
 // the refusal status, in the order the statement lists the cases:
 //   path containing '..' -> 404; connection not attributed (no destination / no claims) -> 421;
 //   policy lookup failure -> 500; enforced denial -> 403
+// (a request whose caller claims cannot be serialised for the log is also answered 421)
 pub open spec fn refusal_status(tcp: TcpConnectionContext, url: http::Uri, kk: KeyKeeperSharedState) -> int {
     if contains_sub(uri_path(url), ".."@) { 404 }
     else if tcp.destination_ip is None || tcp.claims is None { 421 }
